@@ -525,3 +525,105 @@ impl Timer {
         self.0.elapsed()
     }
 }
+
+// ------------------------------------------------------------------------------------------
+// watchdog for in-process cases (E1, E4): a case that never returns
+// ------------------------------------------------------------------------------------------
+
+type CaseDump = Box<dyn Fn() -> serde_json::Value + Send>;
+struct Watched {
+    id: u64,
+    since: Instant,
+    engine: String,
+    dump: CaseDump,
+}
+static WATCHED: Mutex<Vec<Watched>> = parking_lot::const_mutex(Vec::new());
+static WATCH_ID: AtomicU64 = AtomicU64::new(1);
+
+/// registers the case a thread is about to run in-process; dropped when the case returned
+pub struct WatchGuard(u64);
+impl Drop for WatchGuard {
+    fn drop(&mut self) {
+        WATCHED.lock().retain(|w| w.id != self.0);
+    }
+}
+pub fn watch_case<T: Serialize + Clone + Send + 'static>(engine: &str, case: &T) -> WatchGuard {
+    let id = WATCH_ID.fetch_add(1, Ordering::Relaxed);
+    let c = case.clone();
+    WATCHED.lock().push(Watched { id, since: Instant::now(), engine: engine.to_string(), dump: Box::new(move || serde_json::to_value(&c).unwrap_or(serde_json::Value::Null)) });
+    WatchGuard(id)
+}
+
+/// A deterministic, single-threaded case normally takes micro- to milliseconds. One that is still
+/// running after `VERIF_CASE_WATCHDOG_SECS` (default 40) is saved and re-run in a child process
+/// (`sv replay`) for up to three times that long: if the child finishes, the case was merely slow
+/// (load) and the run goes on; if it does not, the code under test does not terminate on that
+/// input - no schedule is involved, the threads that matter are all stepped by the interpreter.
+/// That is what C20 excludes ("all operations complete"); for any other property the run cannot
+/// decide anything any more and ends inconclusive (exit 2).
+pub fn start_case_watchdog(prop: &str, tier: &str, seed: u64, stats: &'static Stats, t0: Instant) {
+    let prop = prop.to_string();
+    let tier = tier.to_string();
+    let limit = Duration::from_secs(std::env::var("VERIF_CASE_WATCHDOG_SECS").ok().and_then(|s| s.parse().ok()).unwrap_or(40));
+    std::thread::spawn(move || {
+        let mut excused: Vec<u64> = Vec::new();
+        loop {
+            std::thread::sleep(Duration::from_millis(500));
+            let hit = {
+                let g = WATCHED.lock();
+                g.iter().find(|w| w.since.elapsed() > limit && !excused.contains(&w.id)).map(|w| (w.id, w.engine.clone(), (w.dump)()))
+            };
+            let Some((id, engine, case)) = hit else { continue };
+            let msg = format!("[case_does_not_terminate] an in-process {} case is still running after {} s", engine, limit.as_secs());
+            let path = write_replay_value(&prop, &engine, &case, &msg);
+            let exe = std::env::current_exe().expect("current exe");
+            let mut child = match std::process::Command::new(exe).args(["replay", &prop, &path]).env("VERIF_REPLAY_TIMEOUT_SECS", "100000").stdout(std::process::Stdio::null()).stderr(std::process::Stdio::null()).spawn() {
+                Ok(c) => c,
+                Err(_) => {
+                    excused.push(id);
+                    continue;
+                }
+            };
+            let c0 = Instant::now();
+            let mut finished = false;
+            while c0.elapsed() < limit * 3 {
+                if let Ok(Some(_)) = child.try_wait() {
+                    finished = true;
+                    break;
+                }
+                std::thread::sleep(Duration::from_millis(200));
+            }
+            if finished {
+                // slow, not stuck (or it returned meanwhile here as well)
+                excused.push(id);
+                let _ = std::fs::remove_file(&path);
+                continue;
+            }
+            let _ = child.kill();
+            let _ = child.wait();
+            let violation = prop == "C20";
+            stats.frozen.store(true, Ordering::Relaxed);
+            let spec = EvidenceSpec {
+                prop: &prop,
+                tier: &tier,
+                seed,
+                rule: "run aborted by the case watchdog: a generated in-process case does not terminate (confirmed in a child process)",
+                assumptions: vec![],
+                extra: serde_json::json!({"aborted_by_watchdog": {"replay": path, "engine": engine, "limit_s": limit.as_secs()}}),
+            };
+            write_evidence(&spec, stats, t0.elapsed(), violation as usize);
+            if violation {
+                println!("counterexample: {} and again in a fresh process after {} s: an operation of this history never completes (deterministic, single-threaded replay)", msg, (limit * 3).as_secs());
+                println!("VIOLATION property={} replay={}", prop, path);
+                std::process::exit(1);
+            } else {
+                println!("INCONCLUSIVE property={} {} and again in a fresh process: the code under test does not terminate on {} (nothing can be decided about {} on this tree)", prop, msg, path, prop);
+                std::process::exit(2);
+            }
+        }
+    });
+}
+
+pub fn write_replay_value(prop: &str, engine: &str, case: &serde_json::Value, failure: &str) -> String {
+    write_replay(prop, engine, case, failure)
+}
